@@ -152,6 +152,9 @@ class LockWorld(object):
         self.next_id = 1
         self.path_id = [0] * nslots          # slot -> inode id (0: path absent)
         self.real_ino = {}                   # id -> real st_ino
+        self.born = {}                       # id -> virtual time the inode was created
+        self.last_open = {}                  # id -> virtual time of the last open(path, 'w+') (truncates: refreshes mtime)
+        self.opened_at = {}                  # contender -> virtual time of its last open()
         self.open_fds = {}                   # id -> number of open descriptors
         self.cur_fd = {}                     # contender -> last proxy opened
         self.inside = []                     # contenders between lock() return and their release call
@@ -224,6 +227,9 @@ class LockWorld(object):
             self.next_id += 1
             self.real_ino[iid] = st.st_ino
             self.path_id[slot] = iid
+            self.born[iid] = self.now
+        self.last_open[iid] = self.now
+        self.opened_at[me] = self.now
         self.open_fds[iid] = self.open_fds.get(iid, 0) + 1
         p = _FileProxy(self, real, iid, slot, me)
         self.cur_fd[me] = weakref.ref(p)
@@ -305,6 +311,35 @@ class LockWorld(object):
         p = self.sched.pending(c)
         return p[0] if p else None
 
+    # ---- the janitor ---------------------------------------------------------------------
+    def attempting(self, c):
+        """between open() and release: the contender has a descriptor of the lock file open"""
+        ref = self.cur_fd.get(c)
+        cur = ref() if ref is not None else None
+        return cur is not None and not cur._closed
+
+    def may_tick(self, hold):
+        """assumption of the janitor: nobody stays between open() and release for more than `hold` ticks"""
+        return all(self.now + 1 - self.opened_at.get(c, 0) <= hold for c in self.contenders if self.attempting(c))
+
+    def cleanup(self, max_lock_time):
+        """cleanup_lockdir of the real code on the lock directory, as one step.  The files carry the time stamps a real
+        file system would show in virtual time: modification time = last open(path, 'w+') (it truncates; the pid written
+        by the holder comes right after its open), access time = creation of the inode (a lock file is never read)."""
+        for slot, iid in enumerate(self.path_id):
+            if iid:
+                os.utime(self.paths[slot], (float(self.born[iid]), float(self.last_open[iid])))
+        self.lockmod.cleanup_lockdir(self.dir, max_lock_time=max_lock_time, force=True)
+        removed = []
+        for slot, iid in enumerate(self.path_id):
+            if iid and not os.path.exists(self.paths[slot]):
+                self.path_id[slot] = 0
+                removed.append(slot)
+        e = {'c': '-', 'ev': 'cleanup', 'removed': bool(removed), 'path': list(self.path_id), 'inside': sorted(self.inside),
+             'now': self.now}
+        self.events.append(e)
+        return e
+
 
 # --------------------------------------------------------------------------------------------
 # spec -> code : force a TLC behaviour onto the real classes
@@ -347,6 +382,10 @@ def replay_behaviour(beh, cfg, rng, lenient=False):
             n += 1
             if name == 'Tick':
                 w.tick()
+            elif name == 'Cleanup':
+                e = w.cleanup(cfg['MaxLockTime'])
+                if not e['removed']:
+                    return 'diverged', 'step %d %s: the janitor of the real code leaves the lock file' % (n, act), w
             else:
                 c = args[0]
                 while w.pending(c) == 'choose':
@@ -415,12 +454,32 @@ def random_schedule(cfg, contenders, rng, max_steps=400):
     w = LockWorld(cfg['NSlots'], cfg['Remove'], cfg['Timeout'], cfg['Cycles'], contenders, rng)
     try:
         steps = 0
+        solo, focus = rng.random() < 0.6, None
         while w.sched.runnable() and steps < max_steps:
             steps += 1
-            if w.now < cfg['MaxTime'] and rng.random() < 0.08:
+            mlt = cfg.get('MaxLockTime', 0)
+            quiet = mlt and not any(w.attempting(c) for c in w.contenders)      # time passes while nobody uses the lock
+            if w.now < cfg['MaxTime'] and rng.random() < (0.08 if not mlt else (0.5 if quiet else 0.15)) and (
+                    not mlt or w.may_tick(cfg['Hold'])):
                 w.tick()
                 continue
-            c = rng.choice(w.sched.runnable())
+            if mlt and rng.random() < 0.12:
+                w.cleanup(mlt)
+                continue
+            if quiet and w.now < cfg['MaxTime'] and rng.random() < 0.25:
+                # a pause: nobody uses the lock for a while, then the janitor comes
+                for _ in range(rng.randint(1, mlt + 1)):
+                    if w.now < cfg['MaxTime']:
+                        w.tick()
+                w.cleanup(mlt)
+                continue
+            if mlt and solo:
+                # one contender at a time, with pauses in which nobody uses the lock (the janitor finds old files then)
+                if focus not in w.sched.runnable() or (not w.attempting(focus) and rng.random() < 0.3):
+                    focus = rng.choice(w.sched.runnable())
+                c = focus if rng.random() < 0.9 else rng.choice(w.sched.runnable())
+            else:
+                c = rng.choice(w.sched.runnable())
             if w.pending(c) == 'choose':
                 w.choice[c] = None
             w.step(c)
@@ -438,6 +497,8 @@ def write_cfg(path, cfg, contenders, spec='Spec', invariants=(), properties=(), 
         for k in ('NSlots', 'Remove', 'InodeCheck', 'Cycles', 'Timeout', 'MaxTime', 'MaxIno'):
             v = cfg[k]
             f.write('  %s = %s\n' % (k, ('TRUE' if v else 'FALSE') if isinstance(v, bool) else v))
+        f.write('  MaxLockTime = %d\n  Hold = %d\n  ExpireBy = "%s"\n' % (cfg.get('MaxLockTime', 0), cfg.get('Hold', 0),
+                                                                      cfg.get('ExpireBy', 'mtime')))
         for i in invariants:
             f.write('INVARIANT %s\n' % i)
         for p in properties:
@@ -482,6 +543,10 @@ CONFIGS = {
     'remove': dict(NSlots=1, Remove=True, InodeCheck=True, Cycles=2, Timeout=1, MaxTime=2, MaxIno=7),
     'keep': dict(NSlots=1, Remove=False, InodeCheck=True, Cycles=2, Timeout=1, MaxTime=2, MaxIno=7),
     'sem': dict(NSlots=2, Remove=False, InodeCheck=True, Cycles=1, Timeout=1, MaxTime=2, MaxIno=7),
+    # with the janitor (cleanup_lockdir) running on the lock directory: lock files that were not opened for more than
+    # MaxLockTime ticks are removed, nobody holds a lock for longer than that
+    'janitor-keep': dict(NSlots=1, Remove=False, InodeCheck=True, Cycles=2, Timeout=1, MaxTime=6, MaxIno=7, MaxLockTime=2, Hold=2),
+    # (with remove_on_unlock the file only exists while the lock is held - for at most MaxLockTime: nothing for the janitor)
 }
 INVS = ['TypeOK', 'MutualExclusion', 'HolderOwnsPath', 'RelockPossible', 'DeadlockFree']
 PROPS = ['AttemptFailSound', 'TimeoutSound']
@@ -496,10 +561,13 @@ def run(ctx):
 
     for name, cfg in CONFIGS.items():
         conts = cont3 if not (thorough and name != 'sem') else cont3
+        if 'janitor' in name and not thorough:
+            conts = ['c1', 'c2']          # three contenders: 37 million states, thorough tier only
         # (M) exhaustive model check of the protocol the code is supposed to follow
         d = ctx.sub('mc-' + name)
         cfgp = os.path.join(d, 'FileLock.cfg')
-        write_cfg(cfgp, cfg, conts, invariants=INVS, properties=PROPS)
+        # (three contenders with the janitor: clock bound 4 instead of 6 - 37 million states)
+        write_cfg(cfgp, dict(cfg, MaxTime=4) if ('janitor' in name and len(conts) > 2) else cfg, conts, invariants=INVS, properties=PROPS)
         r = tlc.run(SPEC, cfgp, d, workers=16, timeout=3000)
         ctx.log('model %s: %r' % (name, r))
         if not r.ok:
@@ -510,7 +578,7 @@ def run(ctx):
                 continue
             raise tlc.MachineryError('TLC failed on %s: %s' % (name, r.error))
         ctx.add_tlc('FileLock/' + name, r)
-        for a in ('Open', 'FlockOk', 'FlockFail', 'VerifyOk', 'CloseFail', 'Retry', 'TimeoutStep'):
+        for a in ('Open', 'FlockOk', 'FlockFail', 'VerifyOk', 'CloseFail', 'Retry', 'TimeoutStep') + (('Cleanup',) if 'janitor' in name else ()):
             if r.coverage.get(a, (0, 0))[0] == 0:
                 raise tlc.MachineryError('vacuity: action %s never taken in %s' % (a, name))
         if name == 'remove' and r.coverage.get('VerifyFail', (0, 0))[0] == 0:
@@ -518,7 +586,7 @@ def run(ctx):
 
         # liveness: every contender finishes (no timeouts possible: clock frozen)
         d = ctx.sub('live-' + name)
-        lcfg = dict(cfg, MaxTime=0, Cycles=2 if name != 'sem' else 1)
+        lcfg = dict(cfg, MaxTime=0, Cycles=2 if name != 'sem' else 1, MaxLockTime=0, Hold=0)
         cfgp = os.path.join(d, 'FileLock.cfg')
         write_cfg(cfgp, lcfg, ['c1', 'c2'] if name != 'sem' else cont3, spec='FairSpec', properties=['Termination'])
         r = tlc.run(SPEC, cfgp, d, workers=16, timeout=3000, coverage=False)
@@ -609,11 +677,35 @@ def run(ctx):
     elif status == 'problem':
         ctx.violation({'kind': 'contender-problem', 'config': 'remove'}, detail, {'behaviour': [a for a, _ in r.trace]})
 
+    # (A2) the janitor must look at a time stamp that every open() refreshes: the model with ExpireBy = "born" puts two
+    # contenders inside; its counterexample is forced on the real code (janitor of the real code included)
+    cfg = dict(CONFIGS['janitor-keep'], ExpireBy='born')
+    d = ctx.sub('attack-janitor')
+    cfgp = os.path.join(d, 'FileLock.cfg')
+    write_cfg(cfgp, cfg, ['c1', 'c2'], invariants=['MutualExclusion'])
+    r = tlc.run(SPEC, cfgp, d, workers=4, timeout=600, coverage=False)
+    if r.violated != 'MutualExclusion':
+        raise tlc.MachineryError('a janitor that looks at the creation time is expected to violate MutualExclusion in the model: %r' % r)
+    status, detail, w = replay_behaviour(r.trace, cfg, ctx.rng, lenient=True)
+    ctx.count(('attack-janitor', tuple(a for a, _ in r.trace)))
+    ctx.sample({'kind': 'model counterexample of a janitor that expires lock files by their creation time, forced on the real code',
+                'actions': [a for a, _ in r.trace][1:], 'result': status, 'detail': detail})
+    ctx.log('janitor attack schedule on the real code: %s (%s)' % (status, detail))
+    if status == 'two-holders':
+        ctx.violation({'kind': 'two-holders', 'config': 'janitor-keep', 'cause': 'janitor-removes-a-held-lock-file'},
+                      'two contenders inside the section: cleanup_lockdir removed the lock file of a lock that was taken a moment ago '
+                      '(the file was created long ago; its age is not judged by a time stamp that open() refreshes)',
+                      {'config': cfg, 'behaviour': [a for a, _ in r.trace]})
+    elif status == 'problem':
+        ctx.violation({'kind': 'contender-problem', 'config': 'janitor-keep'}, detail, {'behaviour': [a for a, _ in r.trace]})
+
     ctx.assumptions += [
         'contenders are threads with separate lock objects sharing one lock directory; flock conflicts between two open '
         'file descriptions of one process behave as between processes (Linux flock semantics)',
         'time is the virtual clock of the harness; sleep() is a yield point',
-        'stale-lock removal by cleanup_lockdir is outside the property and disabled',
+        'the janitor (cleanup_lockdir) is part of two configurations; its own stat-then-unlink is one step (a lock taken inside '
+        'that window on a file older than max_lock_time would be removed: outside the model), and nobody holds a lock longer '
+        'than max_lock_time',
     ]
     return ctx.finish('model_checking',
                       'TLC: all interleavings of 3 contenders x 2 cycles (semaphore: 3 contenders, 2 slots) at system-call '
